@@ -89,6 +89,9 @@ def modify_rules(ctx):
                     ok = la.holds(e[3], "this.m_writeMutex", "X")
                     ctx.ob("C03.wmutex", ok, f.loc(e[4]), "%s in modify happens under m_writeMutex" % e[0],
                            "" if ok else "write mutex not held", fn=f.label, inst=f.qname)
+            if rl is None and len(applies) == 2 and len(st_rl) == 1:
+                ctx.unknown("C03.first: cannot resolve the value of m_readingLeft along a path of %s" % f.label)
+                continue
             if rl is None or len(applies) != 2 or len(st_rl) != 1:
                 ctx.ob("C03.first", False, site, "modify has the shape load flag / apply / flip / drain / apply (%s)" % tag,
                        "applications=%d flips=%d flag value resolved=%s" % (len(applies), len(st_rl), rl is not None),
